@@ -5,6 +5,6 @@ export GOFLAGS=-mod=mod GOPROXY=off GOSUMDB=off GOTOOLCHAIN=local PATH=/opt/veri
 cd "$(dirname "$0")"
 T=$(mktemp -d)
 (cd e2 && go build ./sym/... ./hx/... ./scen/... && go build -o "$T/" ./cmd/c07 ./cmd/c13 )
-if [ -d e1 ]; then (cd e1 && go build -o "$T/ssaexec" . ); fi
+(cd e1 && go build -o "$T/ssaexec" . )
 rm -rf "$T"
 echo setup ok
